@@ -116,6 +116,14 @@ DIRECTED = [
     {'prog': [['T', 't', [_p('a', r='U', mon=1), _p('b')]], _p('c')], 'cfg': {}},
     {'prog': [['G', [_p('s', r='X', mon=1)], [_p('m')], [_p('t')]]], 'cfg': {}},
     {'prog': [['G', [], [_p('m')], [_p('t', r='X', mon=1)]]], 'cfg': {}},
+    # a failure diagnosis whose result is reported again later as a mere note
+    {'prog': [_p('a')], 'cfg': {'tdiag': 'fail_then_ok'}},
+    {'prog': [_p('a', ds=[[['D1', 0]]]), _p('b')], 'cfg': {'tdiag': 'fail_then_ok'}},
+    {'prog': [_p('a', r='K')], 'cfg': {'tdiag': 'fail_then_ok', 'allow_unset': True}},
+    # a dimensioned measurement that is never set
+    {'prog': [_p('a', m='unset', mdim=1), _p('b')], 'cfg': {}},
+    {'prog': [_p('a', m='unset', mdim=1), _p('b')], 'cfg': {'allow_unset': True}},
+    {'prog': [['T', 't', [_p('a', m='unset', mdim=1)]], _p('b')], 'cfg': {'tdiag': 'pass'}},
     # failures that leave no phase record at all
     {'prog': [['T', 't0', [['C', 'c1', ['NOT_ANY', ['D2']], 'U']]]], 'cfg': {}},
     {'prog': [['T', 't0', [['C', 'c1', ['NOT_ANY', ['D2']], 'U'],
